@@ -91,7 +91,7 @@ def main():
                     proof["discharged"] += 1 if good else 0
                     if not good:
                         ctx.broken.append(f"theorem {t}: {axs}")
-                banned = common.grep_banned()
+                banned = common.grep_banned(module)
                 if banned:
                     ctx.broken.append("banned constructs: " + "; ".join(banned[:5]))
                     proof["discharged"] = 0
